@@ -952,7 +952,13 @@ fn mode_walks(r: &mut StdRng, scn: usize, n_req: usize, out: &mut Vec<Value>) ->
   let cfg = AggCfg { composite: false, top_hits: false };
   let mut events = Vec::new();
   for _ in 0..n_req {
-    let (q, filt) = gen_query_filter(r);
+    // queries without optional scored clauses: the matched set is the ideal one (no S07a exposure)
+    let q = match r.gen_range(0..4) {
+      0 | 1 => Q::All,
+      2 => Q::Term { field: "body".into(), value: pick(r, &WORDS).to_string(), boost: None },
+      _ => Q::ConstantScore { filter: gen_filter(r, 1, false, ""), boost: None },
+    };
+    let filt = if chance(r, 1, 4) { Some(gen_filter(r, 1, false, "")) } else { None };
     let subs: Subs = if chance(r, 1, 3) { vec![("s0".to_string(), gen_metric(r, &cfg))] } else { vec![] };
     let comp = gen_comp(r, 1000, subs);
     let psize = r.gen_range(1..=5);
